@@ -11,7 +11,11 @@ Tie between Model/Failure.lean and the real code:
         fault; oracle from the property text: `run` ends before a deadline, never with a wrong value,
         afterwards no process of the run and no /dev/shm segment of the run remain;
   (iv)  random histories of the real shm Manager (sim_shm) ended by Manager.atexit, compared with the model's `atexit`;
-        any segment left in /dev/shm is a violation.
+        any segment left in /dev/shm is a violation;
+  (v)   translator `shm_entry` (AST of shm/server.py -> Gen/ShmEntry.lean: the ways out of LocalServer.start() and whether
+        entrypoint runs the exit handler on each), cross-checked by driving the REAL entrypoint in-process over a scripted socket
+        (undecodable datagrams, recvfrom/sendto errors, signal handlers, ShutdownCommand); any segment left after the server
+        process has ended is a violation, the end (segments left, exit code) is compared with the model's `shmDies`/`shmShutdown`.
 """
 import ast
 import json
@@ -20,37 +24,52 @@ import sys
 import time
 
 PROPERTY = "C05"
-LEVEL_TEXT = ("Lean theorems over Model/Failure.lean instantiated with the healthcheck table generated from executor.py: any exited or "
-              "never-started child makes the next healthcheck raise (and a healthy executor never does); a live executor that sees a "
-              "TaskFailure or a dead child reports a failure-class message in the same recv_loop iteration and tears itself down; a "
-              "failure-class message makes Bridge.recv_events shut down and raise whatever else is in the batch; from any such state "
-              "the run has ended after executor tick + delivery + controller receive (and after ANY fair schedule), with an error "
-              "whenever the controller was still waiting; outputs are only ever written from payloads read; terminate is idempotent and "
-              "leaves no child alive. Unbounded in workers, messages, schedules. Segments: the shm server's exit handler (Manager.atexit, Model/Shm.lean) "
-              "unlinks every segment after any conforming history whatever readers/writers/disk jobs are still registered; executor level proved only "
-              "when the shm server was not SIGKILLed.")
+LEVEL_TEXT = ("Lean theorems over Model/Failure.lean + Model/FailureN.lean instantiated with two tables generated from the source (healthcheck of executor.py; "
+              "the ways out of the shm server's request loop in shm/server.py and whether entrypoint runs the exit handler on each): any exited or "
+              "never-started child makes the next healthcheck raise (a healthy executor never does, heartbeat due or not; only an exhausted retry budget makes it give up); "
+              "a task body that ends by exception, sys.exit(n), BaseException or signal is reported by the executor's next iteration; a live executor that sees a "
+              "TaskFailure or a dead child reports a failure-class message in the same recv_loop iteration and tears itself down; a failure-class message makes "
+              "Bridge.recv_events shut down and raise whatever else is in the batch; for ANY number of executors and any interleaving in which the failing executor "
+              "runs, then the network delivers, then the controller receives, and NOTHING IN FLIGHT IS LOST, the run has returned or raised (never `starved`), with an error "
+              "whenever the controller was still waiting; without the no-loss hypothesis the statement fails (witness: known finding C06-exit-unretried); outputs are only "
+              "ever written from payloads read; every executor that reads ExecutorShutdown tears down; after the run has ended (normally or not, whatever was lost) every "
+              "executor that runs once more is torn down and stays so. Teardown: terminate is a PROGRAM against an explicit environment (Os): assuming only that "
+              "SIGKILL+join ends a process, it is idempotent, addresses every child and leaves none alive, whatever workers and shm server do with their shutdown requests "
+              "(the hypothesis cannot be dropped). Segments: none left when the shm server was alive and reacts as the source tree's server, or had died by SIGTERM/SIGINT or "
+              "because its request loop raised (generated table: the exit handler runs on every path out of server.start()), and Manager.atexit (Model/Shm.lean) unlinks "
+              "every segment after any conforming history; fails when the shm server was SIGKILLed (by the fault, or by terminate after it did not answer).")
 LEVEL_NOTE = ("modelled, not verified: Executor.healthcheck/terminate/recv_loop, entrypoint.execute_sequence, Bridge.recv_events/shutdown, "
-              "impl.run (scheduler abstracted to tasks-remaining / outputs-missing). Process table, /dev/shm, exit codes delivered by the OS, "
-              "wall-clock bounds and message delivery (C06) are not proved; they are sampled by real-cluster fault runs")
-TECHNIQUE = ("Lean 4 proof (stage invariants over arbitrary fair schedules; table side condition by decide) + AST translator for healthcheck + "
-             "differential correspondence on shell objects + real-cluster fault injection with a process-table//dev/shm oracle")
-LEAN_PROPS = ["EkwVerif.Props.C05", "EkwVerif.Props.C05Shm"]
+              "impl.run (scheduler abstracted to tasks-remaining / outputs-missing), shm/server.py entrypoint + LocalServer (end of the process only). "
+              "Definitional obligations (case tables that restate the model and are carried by the correspondence tie, not by proof): c05_worker_body, c05_no_wrong_value's "
+              "first conjunct (outputs come from payloads; that the payload carries the right value is C01). Process table, /dev/shm, exit codes delivered by the OS, "
+              "wall-clock bounds (the graces are constants of the code) and message delivery (C06; not available for the last message of a leaving executor) are not proved; "
+              "they are sampled by real-cluster fault runs")
+TECHNIQUE = ("Lean 4 proof (stage invariants over arbitrary fair schedules of N executors; teardown as a program against an environment with explicit hypotheses; table side "
+             "conditions by decide) + two AST translators (healthcheck; shm server exit paths) each cross-checked by driving the real code + differential correspondence on shell "
+             "objects (real shm client over a fake socket, real shm server entrypoint over a scripted socket) + real-cluster fault injection with a process-table//dev/shm oracle")
+LEAN_PROPS = ["EkwVerif.Props.C05", "EkwVerif.Props.C05N", "EkwVerif.Props.C05Shm"]
 LEAN_DRIVERS = ["C05", "C08"]
 RULE = ("healthcheck: every combination of handle states {never-started, alive, exit 0, 1, -9} for 1-2 workers x {alive,0,1,-9} for shm and data "
-        "server (480 cases); random executor states/inboxes for recv_loop and terminate; generator tasks with 1-3 outputs crashing at every "
+        "server (480 cases); random executor states/inboxes for recv_loop (heartbeat due / retry budget exhausted as environment inputs) and terminate (stuck workers; shm "
+        "server mute or lingering on the shutdown command, through the real shm client over a fake socket); generator tasks with 1-3 outputs crashing at every "
         "point with Exception subclasses / SystemExit(n) / KeyboardInterrupt; random listener streams for Bridge.recv_events; impl.run against a "
-        "simulated cluster with a failure message of every class injected at every reply position; real clusters (1-2 hosts x 1-2 workers): "
-        "task raises / sys.exit(n) / SIGKILL before, during, after publishing; SIGKILL of data server; SIGKILL/SIGTERM of shm server (own/other host). "
+        "simulated cluster with a failure message of every class injected at every reply position; the real shm server entrypoint over a scripted socket: random request "
+        "histories ended by ShutdownCommand / undecodable datagram (unknown tag, empty, non-ascii key) / recvfrom error / sendto error / SIGTERM / SIGINT handler; "
+        "real clusters (1-2 hosts x 1-2 workers): task raises / sys.exit(n) / SIGKILL before, during, after publishing; SIGKILL of data server; SIGKILL/SIGTERM of shm server "
+        "(own/other host), shm server killed between reading a request / the shutdown command and answering it, one undecodable datagram on the shm port; "
         "random histories of the real shm Manager (as for C08/C09) each ended by Manager.atexit with readers/writers/disk jobs still registered; "
         "non-trivial = a case with at least one dead child, failure message or injected fault; distinct by content hash")
 ASSUMPTIONS = [
-    "shell objects: multiprocessing handles, zmq listener/sender, shm client and the clock are replaced by in-process fakes",
-    "fault runs: a hang verdict / leftover verdict is reported only if it reproduces on an immediate re-run of the same case (a fork-with-threads "
-    "deadlock at cluster start-up under heavy machine load is outside C05)",
-    "bounded delivery of an acknowledged message is C06's theorem; the executor process itself does not die (outside the property)",
-    "a live shm server answers the shutdown command; a worker that is not blocked reads WorkerShutdown",
+    "shell objects: multiprocessing handles, zmq listener/sender, UDP sockets of the shm client/server and the clock are replaced by in-process fakes",
+    "fault runs: a hang / leftover verdict that does not show again on an immediate re-run of the same case is dropped ONLY when the job had not started in the failing run "
+    "(every data server has passed the runner's start-up gate and the first task body was entered otherwise): the fork-with-threads deadlock at cluster start-up under "
+    "heavy machine load is outside C05; after the job has started it is reported with both runs in the replay",
+    "lossless delivery of what is in flight is a named hypothesis of the bounded-time theorems (C06 gives it only while the sender lives); the executor process itself "
+    "does not die (outside the property)",
+    "SIGKILL followed by join ends a child process (hypothesis KillWorks of c05_teardown); a worker that is not blocked reads WorkerShutdown",
 ]
-TRUSTED_EXTRA = ["multiprocessing.Process exit-code semantics (SystemExit(n) -> n, other BaseException -> 1, signal s -> -s)"]
+TRUSTED_EXTRA = ["multiprocessing.Process exit-code semantics (SystemExit(n) -> n, other BaseException -> 1, signal s -> -s)",
+                 "Linux: /dev/shm/<name> is the POSIX shared-memory object <name>; /proc/net/udp shows a socket's receive queue"]
 
 CODES = [None, 0, 1, -9]
 
@@ -231,21 +250,195 @@ def health_all_raise : Bool := allRaise healthTable
 end EkwVerif.Gen
 """
 
+# ============================================================================= translator `shm_entry`
+
+def _catches_exception(handler):
+    """does this `except` clause catch an arbitrary `Exception`?"""
+    t = handler.type
+    if t is None:
+        return True
+    names = [ast.unparse(x) for x in (t.elts if isinstance(t, ast.Tuple) else [t])]
+    return any(n in ("Exception", "BaseException") for n in names)
+
+
+def _is_call_on(node, var, attr_path):
+    """is `node` an expression statement calling  <var>.<attr_path>(...) ?"""
+    return (isinstance(node, ast.Expr) and isinstance(node.value, ast.Call)
+            and ast.unparse(node.value.func) == var + "." + attr_path)
+
+
+def _abstract_entry(stmts, var, scenario):
+    """Abstract execution of the statements of `entrypoint` where `<var>.start()` either returns or raises an Exception
+    (`scenario` in returned|raised). Returns (status, atexit_ran) with status normal|raise|return."""
+    st = {"atexit": False, "start": False}
+
+    def mentions(node):
+        return any(isinstance(n, ast.Name) and n.id == var for n in ast.walk(node))
+
+    def block(body):
+        for s in body:
+            if any(isinstance(n, ast.Call) and ast.unparse(n.func) == var + ".start" for n in ast.walk(s)) and not isinstance(s, (ast.Try, ast.With, ast.If)):
+                st["start"] = True
+                if scenario == "raised":
+                    return "raise"
+                continue
+            if _is_call_on(s, var, "atexit") or _is_call_on(s, var, "manager.atexit"):
+                if st["start"]:
+                    st["atexit"] = True
+                continue
+            if isinstance(s, ast.Try):
+                r = block(s.body)
+                if r == "raise":
+                    h = next((h for h in s.handlers if _catches_exception(h)), None)
+                    if h is not None:
+                        r = block(h.body)
+                elif r == "normal":
+                    r = block(s.orelse)
+                rf = block(s.finalbody)
+                if rf != "normal":
+                    r = rf
+                if r != "normal":
+                    return r
+                continue
+            if isinstance(s, ast.With):
+                r = block(s.body)
+                if r != "normal":
+                    return r
+                continue
+            if isinstance(s, ast.Raise):
+                return "raise"
+            if isinstance(s, ast.Return):
+                return "return"
+            if isinstance(s, (ast.If, ast.For, ast.While, ast.Match)):
+                if (st["start"] or any(isinstance(n, ast.Call) and ast.unparse(n.func) == var + ".start" for n in ast.walk(s))) and \
+                        (mentions(s) or any(isinstance(n, (ast.Raise, ast.Return)) for n in ast.walk(s))):
+                    raise TranslateError("entrypoint: conditional use of the server around/after start() not recognised: " + ast.unparse(s)[:80])
+                continue
+            # logging calls, assignments ...: assumed not to raise
+        return "normal"
+    r = block(stmts)
+    if not st["start"]:
+        raise TranslateError("entrypoint: no call of <server>.start() found")
+    return r, st["atexit"]
+
+
+def shm_entry_table(src: str):
+    """AST of cascade/shm/server.py -> which ways out of LocalServer.start() there are and whether `entrypoint` runs the exit
+    handler on each: {"rows": [[exit, goes_on, atexit]...], "shutdown_breaks", "sigterm_handler", "sigint_handler",
+    "atexit_unlinks", "loop_can_raise"}."""
+    mod = ast.parse(src)
+    ep = next((n for n in mod.body if isinstance(n, ast.FunctionDef) and n.name == "entrypoint"), None)
+    if ep is None:
+        raise TranslateError("function entrypoint not found")
+    cls = next((n for n in mod.body if isinstance(n, ast.ClassDef) and n.name == "LocalServer"), None)
+    if cls is None:
+        raise TranslateError("class LocalServer not found")
+    meth = {n.name: n for n in cls.body if isinstance(n, ast.FunctionDef)}
+    for m in ("__init__", "start", "atexit"):
+        if m not in meth:
+            raise TranslateError(f"LocalServer.{m} not found")
+    # --- entrypoint: the variable holding the server
+    var = None
+    for n in ast.walk(ep):
+        if isinstance(n, ast.Assign) and isinstance(n.value, ast.Call) and ast.unparse(n.value.func) == "LocalServer" and isinstance(n.targets[0], ast.Name):
+            var = n.targets[0].id
+    if var is None:
+        raise TranslateError("entrypoint: no `<name> = LocalServer(...)`")
+    rows = []
+    for scenario in ("returned", "raised"):
+        status, ran = _abstract_entry(ep.body, var, scenario)
+        rows.append([scenario, status != "raise", bool(ran)])
+    # --- LocalServer.atexit: `self.manager.atexit()` as an unconditional statement (top level, or body/finally of a try at top level)
+    def uncond(stmts):
+        for s in stmts:
+            if _is_call_on(s, "self", "manager.atexit"):
+                return True
+            if isinstance(s, ast.Try) and (uncond(s.body[:1]) or uncond(s.finalbody)):
+                return True
+            if isinstance(s, (ast.Return, ast.Raise)):
+                return False
+        return False
+    atexit_unlinks = uncond(meth["atexit"].body)
+    # --- LocalServer.__init__: signal handlers
+    handlers = {}
+    for n in ast.walk(meth["__init__"]):
+        if isinstance(n, ast.Call) and ast.unparse(n.func) in ("signal.signal", "signal") and len(n.args) == 2:
+            handlers[ast.unparse(n.args[0]).split(".")[-1]] = ast.unparse(n.args[1])
+    # --- LocalServer.start: one `while` loop; the ShutdownCommand branch leaves it
+    loops = [n for n in meth["start"].body if isinstance(n, ast.While)]
+    if len(loops) != 1:
+        raise TranslateError("LocalServer.start: expected exactly one top-level while loop")
+    loop = loops[0]
+
+    def leaves(stmts):
+        """a `break` of THIS loop / a `return`, reached unconditionally within the statement list"""
+        for s in stmts:
+            if isinstance(s, (ast.Break, ast.Return)):
+                return True
+            if isinstance(s, ast.Raise) or isinstance(s, ast.Continue):
+                return False
+        return False
+    shutdown_breaks = False
+    for n in ast.walk(loop):
+        if isinstance(n, ast.If) and "ShutdownCommand" in ast.unparse(n.test) and "not" not in ast.unparse(n.test).split():
+            shutdown_breaks = leaves(n.body)
+    # statements of the loop body that sit outside any try catching Exception and contain a call: the `raised` exit exists
+    loop_can_raise = any(not isinstance(s, ast.Try) and any(isinstance(c, ast.Call) for c in ast.walk(s)) for s in loop.body) or \
+        any(isinstance(s, ast.Try) and not any(_catches_exception(h) for h in s.handlers) for s in loop.body)
+    return {"rows": rows, "shutdown_breaks": bool(shutdown_breaks),
+            "sigterm_handler": handlers.get("SIGTERM") == "self.atexit", "sigint_handler": handlers.get("SIGINT") == "self.atexit",
+            "atexit_unlinks": bool(atexit_unlinks), "loop_can_raise": bool(loop_can_raise)}
+
+
+def render_shm_entry(tab):
+    b = lambda x: "true" if x else "false"
+    rows = ",\n".join(f"      ⟨.{x}, {b(g)}, {b(a)}⟩" for x, g, a in tab["rows"])
+    return f"""/- GENERATED by harness/ekw/props/c05.py (translator `shm_entry`) from
+   src/cascade/shm/server.py::entrypoint, LocalServer.start/atexit/__init__ -- do not edit by hand. -/
+import EkwVerif.Model.Failure
+namespace EkwVerif.Gen
+open EkwVerif.Failure
+
+def shmEntry : ShmEntry :=
+  {{ rows := [
+{rows}],
+    shutdownBreaks := {b(tab['shutdown_breaks'])},
+    sigtermHandler := {b(tab['sigterm_handler'])},
+    sigintHandler := {b(tab['sigint_handler'])},
+    atexitUnlinks := {b(tab['atexit_unlinks'])} }}
+
+def shm_entry_clean : Bool := entryClean shmEntry
+
+end EkwVerif.Gen
+"""
+
 
 def _repo_src():
     from ekw import core
     return core.REPO / "src" / "cascade" / "executor" / "executor.py"
 
 
-def translate(ctx):
-    from ekw import core
-    tab = health_table(_repo_src().read_text())
-    text = render_lean(tab)
-    path = core.LEAN_DIR / "EkwVerif" / "Gen" / "Health.lean"
+def _write_if_changed(path, text):
     if not path.exists() or path.read_text() != text:
         path.parent.mkdir(exist_ok=True)
         path.write_text(text)
-    ctx.extra["health_table"] = tab
+
+
+def translate(ctx):
+    from ekw import core
+    err = None
+    try:
+        tab = health_table(_repo_src().read_text())
+        _write_if_changed(core.LEAN_DIR / "EkwVerif" / "Gen" / "Health.lean", render_lean(tab))
+        ctx.extra["health_table"] = tab
+    except TranslateError as e:
+        err = e
+    # second table: the ways out of the shm server's request loop (independent of the first: both are always attempted)
+    etab = shm_entry_table((core.REPO / "src" / "cascade" / "shm" / "server.py").read_text())
+    _write_if_changed(core.LEAN_DIR / "EkwVerif" / "Gen" / "ShmEntry.lean", render_shm_entry(etab))
+    ctx.extra["shm_entry_table"] = etab
+    if err is not None:
+        raise err
 
 
 # ============================================================================= shells (real code, fake world)
@@ -271,6 +464,11 @@ class FakeProc:
             self.log.append(["a", ["join", self.name]])
         elif self.kind == "shm":
             self.log.append(["a", ["shm-join"]])
+            if self.exitcode is None:
+                # a shm server exits only once it has answered the shutdown command (mode ok: FakeShmSocket sets the exit code)
+                if timeout is None:
+                    raise _Hang("shm_process.join() without timeout on a shm server that does not exit")
+                return
         if self.exitcode is None:
             if self.stuck:
                 if timeout is None:
@@ -290,11 +488,13 @@ class FakeProc:
 
 
 class FakeWatcher:
+    breach = 0
+
     def step(self):
         pass
 
     def is_breach(self):
-        return 0
+        return self.breach
 
     def elapsed_ms(self):
         return 0
@@ -308,6 +508,7 @@ class FakeSender:
             self.hosts[h] = (None, "tcp://x:1")
             self.hosts["data." + h] = (None, "tcp://x:2")
         self.on_send = None
+        self.retry_raises = False
 
     def add_host(self, h, a):
         self.hosts[h] = (None, a)
@@ -321,7 +522,9 @@ class FakeSender:
         pass
 
     def maybe_retry(self):
-        pass
+        if self.retry_raises:
+            # what ReliableSender.maybe_retry does once a message has used up its retries
+            raise ValueError("message retried too many times")
 
 
 class ScriptListener:
@@ -365,24 +568,66 @@ def make_executor(st, log):
     for w, h in st["workers"]:
         e.workers[_wid(w)] = None if h == "ns" else FakeProc("worker", w, h["exit"], h.get("stuck", False), log)
     e.shm_process = FakeProc("shm", "shm", st["shm"], False, log)
+    e.shm_process.mode = st.get("shm_mode", "ok")
     e.data_server = FakeProc("data", "data", st["data"], False, log)
     e.terminating = st["terminating"]
     e.heartbeat_watcher = FakeWatcher()
     e.datasets = set()
     e.daddress = "tcp://x:2"
-    e.registration = None
+    import cascade.executor.msg as _M
+    e.registration = _M.ExecutorRegistration(host=st["host"], maddress="tcp://x:1", daddress="tcp://x:2", workers=[])
     ctrl_log = []
     e.sender = FakeSender(ctrl_log)
     e._ctrl_log = ctrl_log
 
-    class _Shm:
-        ConflictError = Exception
+    # the REAL cascade.shm.client.shutdown/_send_command over a fake UDP socket: a server in mode `ok` answers the
+    # ShutdownCommand and exits, `lingers` answers and stays, `mute` never answers (recv blocks: for ever without a
+    # socket timeout, else socket.timeout)
+    import cascade.shm.api as shm_api
+    import cascade.shm.client as real_client
+    os.environ.setdefault(shm_api.client_port_envvar, "1")
 
-        @staticmethod
-        def shutdown():
-            log.append(["a", ["shm-shutdown"]])
-            if e.shm_process.exitcode is None:
-                e.shm_process.exitcode = 0
+    class _FakeShmSocket:
+        def __init__(self, *a, **k):
+            self.timeout, self.resp = None, None
+
+        def settimeout(self, t):
+            self.timeout = t
+
+        def connect(self, addr):
+            pass
+
+        def send(self, b):
+            comm = shm_api.deser(b)
+            if isinstance(comm, shm_api.ShutdownCommand):
+                log.append(["a", ["shm-shutdown"]])
+            p = e.shm_process
+            if p.exitcode is not None:
+                raise ConnectionRefusedError(111, "Connection refused")
+            if p.mode in ("ok", "lingers"):
+                self.resp = shm_api.ser(shm_api.OkResponse())
+                if p.mode == "ok" and isinstance(comm, shm_api.ShutdownCommand):
+                    p.exitcode = 0
+
+        def recv(self, n):
+            if self.resp is not None:
+                return self.resp
+            if self.timeout is None:
+                raise _Hang("shm client recv() without timeout on a shm server that never answers")
+            raise TimeoutError("timed out")
+
+        def close(self):
+            pass
+
+    class _FakeShmSocketMod:
+        AF_INET, SOCK_DGRAM = 2, 2
+        socket = _FakeShmSocket
+        timeout = TimeoutError
+    real_client.socket = _FakeShmSocketMod
+
+    class _Shm:
+        ConflictError = real_client.ConflictError
+        shutdown = staticmethod(real_client.shutdown)
 
         @staticmethod
         def ensure():
@@ -561,10 +806,13 @@ def oracle_terminate(st, out):
 
 # ---- (ii.c) one recv_loop iteration
 
-def real_tick(st, inbox):
+def real_tick(st, inbox, hb=False, retry=False):
     log = []
     try:
         e = make_executor(st, log)
+        if hb:
+            e.heartbeat_watcher.breach = 1      # grace elapsed without a message to the controller
+        e.sender.retry_raises = bool(retry)     # a message to the controller has run out of retries
         msgs = [_real_emsg(j, st["host"]) for j in inbox]
 
         def exhausted():
@@ -581,7 +829,7 @@ def real_tick(st, inbox):
         return {"crash": _err(ex), "out": log}
 
 
-def oracle_tick(st, inbox, out):
+def oracle_tick(st, inbox, out, retry=False):
     if st["terminating"]:
         return None
     dead = any(h == "ns" or h["exit"] is not None for _, h in st["workers"]) or st["shm"] is not None or st["data"] is not None
@@ -594,6 +842,8 @@ def oracle_tick(st, inbox, out):
     if (dead or tf) and not any(k in ("tf", "ef", "xf", "exit") for k in sent):
         return ({"kind": "failure-not-reported", "cause": "task-failure" if tf else "dead-child"},
                 f"executor with {'a TaskFailure in its queue' if tf else 'a dead child'} sent no failure message to the controller: state {st}, inbox {inbox}, sent {sent}")
+    if retry:
+        return None      # the sender ran out of retries: the executor gives up (ExecutorFailure) -- not a spurious failure
     if not dead and not any(m[0] in ("tf", "xf", "shutdown", "other") for m in inbox) and all(m[0] != "ts" or _alive(st, m[1]) for m in inbox):
         if any(k in ("ef",) for k in sent):
             return ({"kind": "spurious-executor-failure"}, f"healthy executor reported ExecutorFailure: state {st}, inbox {inbox}")
@@ -626,7 +876,8 @@ def gen_state(rng, healthy_bias=0.35):
     return {"host": "h0", "workers": [[f"h0.w{i}", handle()] for i in range(nw)],
             "shm": None if healthy or rng.random() < 0.7 else rng.choice([0, 1, -9]),
             "data": None if healthy or rng.random() < 0.7 else rng.choice([0, 1, -9]),
-            "terminating": (not healthy) and rng.random() < 0.08}
+            "terminating": (not healthy) and rng.random() < 0.08,
+            "shm_mode": "ok" if healthy else rng.choice(["ok", "ok", "ok", "ok", "mute", "lingers"])}
 
 
 def gen_inbox(rng, st):
@@ -815,7 +1066,10 @@ def real_recv(hosts, batches):
 
     def exhausted():
         if holder.get("in_shutdown"):
-            holder["b"]._ft.t += 10 ** 13     # the grace elapses
+            holder["b"]._ft.t += 10 ** 13     # the grace elapses (2.8 h of fake time per empty poll)
+            holder["empty_polls"] = holder.get("empty_polls", 0) + 1
+            if holder["empty_polls"] > 25:
+                raise _Hang("Bridge.shutdown keeps waiting for hosts that never answer (70 h of fake time)")
             return []
         raise _Stop()
     lst = ScriptListener([[_real_cmsg(j) for j in b] for b in batches], exhausted)
@@ -838,6 +1092,8 @@ def real_recv(hosts, batches):
         return {"res": "events", "events": [_cmsg_of_real(m) for m in ev], "hosts": [h for h in b.sender.hosts if not h.startswith("data.")]}, consumed_failure()
     except _Stop:
         return {"res": "starved", "hosts": [h for h in b.sender.hosts if not h.startswith("data.")]}, consumed_failure()
+    except _Hang as hg:
+        return {"res": "hang", "why": str(hg)}, consumed_failure()
     except ValueError:
         sent = [h for h, m in log if isinstance(m, M.ExecutorShutdown)]
         return {"res": "raised", "sent": sent, "left": [h for h in b.sender.hosts if not h.startswith("data.")]}, True
@@ -929,6 +1185,9 @@ def real_run_sim(case):
             if not queue:
                 if state["in_shutdown"]:
                     b._ft.t += 10 ** 13
+                    state["empty_polls"] = state.get("empty_polls", 0) + 1
+                    if state["empty_polls"] > 25:
+                        raise _Hang("Bridge.shutdown keeps waiting for hosts that never answer (70 h of fake time)")
                     return []
                 raise _Stop()
             k = split.pop(0) if split else len(queue)
@@ -963,6 +1222,9 @@ def real_run_sim(case):
         res["outputs"] = sorted([_ds_str(k), v] for k, v in st.outputs.items() if v is not None)
     except _Stop:
         res["status"] = "starved"
+    except _Hang as hg:
+        res["status"] = "hang"
+        res["error"] = str(hg)
     except Exception as ex:
         res["status"] = "error"
         res["error"] = _err(ex)
@@ -988,6 +1250,8 @@ def oracle_run_sim(case, res, batches, hosts):
         want = sorted([e, cl.EXPECTED[e]] for e in case["ext"])
         if res.get("outputs") != want:
             return ({"kind": "wrong-value"}, f"run ended ok with outputs {res.get('outputs')}, expected {want}")
+    if res["status"] == "hang":
+        return ({"kind": "shutdown-waits-forever"}, f"impl.run does not end: {res.get('error')} (simulated cluster, case {case})")
     if res["status"] == "starved" and not inj:
         return ({"kind": "hang", "fault": "none", "where": "sim"}, f"controller starved although every reply was delivered (case {case})")
     if res["status"] in ("ok", "error"):
@@ -1020,6 +1284,322 @@ def gen_run_cases(rng, n):
     return cases
 
 
+# ---- (ii.g) the END of the shm server process: the real `cascade.shm.server.entrypoint` in-process, fake socket
+
+GARBAGE = {"unknown-tag": "ff2067617262616765", "empty": "", "non-ascii-key": "0100000002fffe", "short-alloc": "03"}
+SHM_ENDS = ["shutdown", "garbage", "recv-error", "respond-error", "sigterm", "sigint"]
+_entry_counter = [0]
+
+
+class _Dead(BaseException):
+    """the process was killed by the default action of a signal"""
+
+
+def _b36(n):
+    d = "0123456789abcdefghijklmnopqrstuvwxyz"
+    out = ""
+    while True:
+        out = d[n % 36] + out
+        n //= 36
+        if not n:
+            return out
+
+
+def real_shm_entry(case):
+    """Runs the REAL entrypoint (hence LocalServer.__init__/start/atexit and a real dataset.Manager) in this process.
+    The socket is scripted: requests of clients (which create their segment in /dev/shm once an allocation is granted,
+    as cascade.shm.client does), then the END event:
+      shutdown       the ShutdownCommand
+      garbage        one datagram `api.deser` cannot decode (case["datagram"]: key of GARBAGE)
+      recv-error     recvfrom raises OSError
+      respond-error  sendto raises OSError on the answer to a StatusInquiry
+      sigterm|sigint the registered handler runs while the server is blocked in recvfrom (then EBADF if it closed the socket)
+    Observation: how entrypoint ended (returned|raised:<T>|alive|killed:<n>), exit code, which segments are still in /dev/shm."""
+    import cascade.shm.api as api
+    import cascade.shm.dataset as dsm
+    import cascade.shm.server as server
+    _entry_counter[0] += 1
+    prefix = "e5%s%s_" % (_b36(os.getpid()), _b36(_entry_counter[0]))
+    for n in os.listdir("/dev/shm"):
+        if n.startswith(prefix):
+            try:
+                os.unlink("/dev/shm/" + n)
+            except OSError:
+                pass
+    world = {"segs": {}, "sizes": {}, "handlers": {}, "left_start": False, "srv_atexit": [], "mgr_atexit": 0, "in_srv_atexit": False,
+             "fail_respond": False, "responses": [], "servers": [], "rdids": {}, "pre_end": None}
+    script = []
+    for r in case["reqs"]:
+        k = r[0]
+        if k == "alloc":
+            script.append(("dgram", api.ser(api.AllocateRequest(key=r[1], l=int(r[2]), deser_fun="d")), r))
+            if r[3]:
+                script.append(("dgram", api.ser(api.CloseCallback(key=r[1], rdid="")), r))
+        elif k == "get":
+            script.append(("dgram", api.ser(api.GetRequest(key=r[1])), r))
+        elif k == "purge":
+            script.append(("dgram", api.ser(api.PurgeRequest(key=r[1])), r))
+        elif k == "status":
+            script.append(("dgram", api.ser(api.StatusInquiry()), r))
+        elif k == "free":
+            script.append(("dgram", api.ser(api.FreeSpaceRequest()), r))
+        elif k == "dsstatus":
+            script.append(("dgram", api.ser(api.DatasetStatusRequest(key=r[1])), r))
+        elif k == "unsupported":
+            script.append(("dgram", api.ser(api.OkResponse(error="")), r))
+    end = case["end"]
+    script.append(("mark",))
+    if end == "shutdown":
+        script.append(("dgram", api.ser(api.ShutdownCommand()), None))
+    elif end == "garbage":
+        script.append(("dgram", bytes.fromhex(GARBAGE[case.get("datagram", "unknown-tag")]), None))
+    elif end == "recv-error":
+        script.append(("raise",))
+    elif end == "respond-error":
+        script.append(("failnext",))
+        script.append(("dgram", api.ser(api.StatusInquiry()), None))
+    elif end in ("sigterm", "sigint"):
+        script.append(("signal", end.upper()))
+
+    def seg_names():
+        return sorted(k for k, n in world["segs"].items() if os.path.exists("/dev/shm/" + n))
+
+    class Sock:
+        closed = False
+
+        def bind(self, addr):
+            pass
+
+        def settimeout(self, t):
+            pass
+
+        def setsockopt(self, *a):
+            pass
+
+        def recvfrom(self, n):
+            while True:
+                if self.closed:
+                    raise OSError(9, "Bad file descriptor")
+                if not script:
+                    raise _Stop()
+                it = script.pop(0)
+                if it[0] == "mark":
+                    world["pre_end"] = seg_names()
+                    continue
+                if it[0] == "failnext":
+                    world["fail_respond"] = True
+                    continue
+                if it[0] == "dgram":
+                    world["cur"] = it[2]
+                    return it[1], ("127.0.0.1", 40000)
+                if it[0] == "raise":
+                    raise OSError(111, "Connection refused")
+                if it[0] == "signal":
+                    h = world["handlers"].get(it[1])
+                    if h is None or not callable(h):
+                        raise _Dead(15 if it[1] == "SIGTERM" else 2)
+                    h(15 if it[1] == "SIGTERM" else 2, None)
+                    continue        # a closed socket raises EBADF above; an open one keeps blocking (script is empty)
+
+        def sendto(self, b, addr):
+            if world["fail_respond"]:
+                world["fail_respond"] = False
+                raise OSError(90, "Message too long")
+            try:
+                resp = api.deser(b)
+            except Exception:
+                return
+            cur = world.get("cur")
+            if isinstance(resp, api.AllocateResponse) and not resp.error and cur and cur[0] == "alloc":
+                # the client creates the segment it was granted
+                fd = os.open("/dev/shm/" + resp.shmid, os.O_CREAT | os.O_EXCL | os.O_RDWR, 0o600)
+                os.ftruncate(fd, max(1, int(cur[2])))
+                os.close(fd)
+                world["segs"][cur[1]] = resp.shmid
+            return len(b)
+
+        def close(self):
+            self.closed = True
+
+    class FakeSocketMod:
+        AF_INET, SOCK_DGRAM, SOL_SOCKET, SO_REUSEADDR = 2, 2, 1, 2
+        error = OSError
+        timeout = TimeoutError
+
+        @staticmethod
+        def socket(*a, **k):
+            return Sock()
+
+    class FakeSignalMod:
+        SIGINT, SIGTERM = "SIGINT", "SIGTERM"
+
+        @staticmethod
+        def signal(signum, handler):
+            world["handlers"][signum if isinstance(signum, str) else {2: "SIGINT", 15: "SIGTERM"}.get(int(signum), str(signum))] = handler
+
+    orig_server = server.LocalServer
+
+    class Rec(orig_server):
+        def __init__(self, *a, **k):
+            world["servers"].append(self)
+            super().__init__(*a, **k)
+
+        def start(self):
+            try:
+                return super().start()
+            finally:
+                world["left_start"] = True
+
+        def atexit(self, *a, **k):
+            before = world["mgr_atexit"]
+            try:
+                return super().atexit(*a, **k)
+            finally:
+                world["srv_atexit"].append({"after_start": world["left_start"], "manager": world["mgr_atexit"] > before})
+    orig_matexit = dsm.Manager.atexit
+
+    def matexit(self_):
+        world["mgr_atexit"] += 1
+        if world["left_start"]:
+            world["mgr_after_start"] = True
+        return orig_matexit(self_)
+    saved = (server.socket, server.signal)
+    server.socket, server.signal, server.LocalServer = FakeSocketMod, FakeSignalMod, Rec
+    dsm.Manager.atexit = matexit
+    import multiprocessing.resource_tracker as rt
+    saved_rt = (rt.register, rt.unregister)
+    rt.register = lambda *a, **k: None
+    rt.unregister = lambda *a, **k: None
+    out = {}
+    try:
+        try:
+            server.entrypoint(0, None, None, prefix)
+            out["ended"], out["code"] = "returned", 0
+        except _Stop:
+            out["ended"], out["code"] = "alive", None
+        except _Dead as d:
+            out["ended"], out["code"] = "killed", -int(d.args[0])
+        except Exception as ex:
+            out["ended"], out["code"] = "raised:" + _err(ex), 1
+        if world["pre_end"] is None:
+            world["pre_end"] = seg_names()
+        out["pre"] = world["pre_end"]
+        out["left"] = seg_names()
+        out["atexit_after_start"] = any(a["after_start"] for a in world["srv_atexit"]) or bool(world.get("mgr_after_start"))
+        out["srv_atexit_unlinks"] = (all(a["manager"] for a in world["srv_atexit"]) if world["srv_atexit"] else None)
+        out["handlers"] = sorted(k for k, h in world["handlers"].items() if getattr(h, "__func__", None) is Rec.atexit)
+        out["left_start"] = world["left_start"]
+    finally:
+        server.socket, server.signal = saved
+        server.LocalServer = orig_server
+        dsm.Manager.atexit = orig_matexit
+        # whatever the code under test did: the check itself leaves nothing behind
+        for srv in world["servers"]:
+            try:
+                orig_matexit(srv.manager)
+            except Exception:
+                pass
+        for n in list(world["segs"].values()):
+            try:
+                os.unlink("/dev/shm/" + n)
+            except OSError:
+                pass
+        rt.register, rt.unregister = saved_rt
+    return out
+
+
+_END_CLASS = {"shutdown": "shutdown", "garbage": "loop-exception", "recv-error": "loop-exception", "respond-error": "loop-exception",
+              "sigterm": "sigterm", "sigint": "sigint"}
+
+
+def oracle_shm_entry(case, out):
+    """From the property text: once the shm server process has ended (any way but SIGKILL) none of its segments is left;
+    asked to shut down, it ends."""
+    if "crash" in out:
+        return None
+    how = _END_CLASS[case["end"]]
+    if out["ended"] == "alive":
+        if case["end"] == "shutdown":
+            return ({"kind": "shm-server-ignores-shutdown"}, f"the shm server keeps serving after the ShutdownCommand (Executor.terminate joins it without a timeout); history {case}")
+        return None
+    if out["left"]:
+        return ({"kind": "segments-left-after-shm-exit", "end": how},
+                f"the shm server process ended ({case['end']}{'/' + case['datagram'] if case['end'] == 'garbage' else ''} -> entrypoint {out['ended']}, exit code {out['code']}) "
+                f"and left {len(out['left'])} of its {len(out['pre'])} segments in /dev/shm: keys {out['left']}; request history {case['reqs']}")
+    return None
+
+
+def gen_shm_entry_cases(rng, n):
+    # fixed: the three states a dataset can be in (published, half written, being read) before every kind of end
+    base = [["alloc", "pub0", 64, True], ["alloc", "pub1", 8, True], ["get", "pub1"], ["alloc", "half", 16, False]]
+    cases = [{"reqs": base, "end": e, "datagram": "unknown-tag"} for e in SHM_ENDS]
+    cases += [{"reqs": base[:2], "end": "garbage", "datagram": g} for g in GARBAGE]
+    cases.append({"reqs": [], "end": "garbage", "datagram": "unknown-tag"})
+    while len(cases) < n:
+        keys = ["k%d" % i for i in range(rng.randint(1, 4))]
+        reqs, have = [], set()
+        for _ in range(rng.randint(0, 8)):
+            r = rng.random()
+            k = rng.choice(keys)
+            if r < 0.45:
+                reqs.append(["alloc", k, rng.choice([1, 8, 64, 4096]), rng.random() < 0.7])
+                have.add(k)
+            elif r < 0.6:
+                reqs.append(["get", k])
+            elif r < 0.72:
+                reqs.append(["purge", k])
+            elif r < 0.8:
+                reqs.append(["dsstatus", k])
+            elif r < 0.88:
+                reqs.append(["status"])
+            elif r < 0.94:
+                reqs.append(["free"])
+            else:
+                reqs.append(["unsupported"])
+        cases.append({"reqs": reqs, "end": rng.choice(SHM_ENDS + ["garbage", "garbage", "respond-error"]), "datagram": rng.choice(sorted(GARBAGE))})
+    return cases
+
+
+def _run_shm_entry(case):
+    try:
+        return real_shm_entry(case)
+    except Exception as ex:
+        return {"crash": _err(ex) + ": " + str(ex)[:200]}
+
+
+def _shrink_shm_entry(case, o):
+    """drop requests while the same kind of failure remains"""
+    cur, cur_o = case, o
+    i = 0
+    while i < len(cur["reqs"]):
+        cand = dict(cur, reqs=cur["reqs"][:i] + cur["reqs"][i + 1:])
+        out = _run_shm_entry(cand)
+        o2 = None if "crash" in out else oracle_shm_entry(cand, out)
+        if o2 and o2[0] == o[0]:
+            cur, cur_o = cand, o2
+        else:
+            i += 1
+    return cur, cur_o
+
+
+def _dynamic_entry():
+    """What the real entrypoint/LocalServer do (translator cross-check): the same facts as shm_entry_table, observed."""
+    one = [["alloc", "a", 8, True]]
+    sh = _run_shm_entry({"reqs": one, "end": "shutdown"})
+    ex = _run_shm_entry({"reqs": one, "end": "recv-error"})
+    ga = _run_shm_entry({"reqs": one, "end": "garbage", "datagram": "unknown-tag"})
+    st = _run_shm_entry({"reqs": one, "end": "sigterm"})
+    if any("crash" in o for o in (sh, ex, ga, st)):
+        return {"crash": [o.get("crash") for o in (sh, ex, ga, st)]}
+    unl = [o["srv_atexit_unlinks"] for o in (sh, ex, ga, st) if o["srv_atexit_unlinks"] is not None]
+    return {"rows": [["returned", sh["ended"] in ("returned", "alive"), bool(sh["atexit_after_start"])],
+                     ["raised", ex["ended"] == "returned", bool(ex["atexit_after_start"])]],
+            "shutdown_breaks": sh["ended"] != "alive" and sh["left_start"],
+            "sigterm_handler": "SIGTERM" in st["handlers"], "sigint_handler": "SIGINT" in st["handlers"],
+            "atexit_unlinks": bool(unl) and all(unl),
+            "loop_can_raise": ga["ended"] != "alive"}
+
+
 # ============================================================================= (iii) real clusters
 
 def cluster_matrix():
@@ -1035,15 +1615,52 @@ def cluster_matrix():
                 for victim in (["own", "other"] if hosts == 2 else ["own"]):
                     out.append(dict(fault=fault, when=when, task=task, hosts=hosts, workers=workers, victim=victim))
         out.append(dict(fault="kill-shm-midreq", when="before", task="src", hosts=hosts, workers=workers, victim="own"))
+        if workers == 1:
+            # the shm server dies between reading the executor's ShutdownCommand and answering it (single worker: the only
+            # datagram that can queue up in the frozen server's socket is that command)
+            out.append(dict(fault="kill-shm-midshutdown", when="before", task="src", hosts=hosts, workers=1, victim="own"))
+        # the shm server's request loop raises on ONE undecodable datagram: it ends through entrypoint's exception path
+        for i, (task, when) in enumerate([("src", "before"), ("src", "during"), ("src", "after"), ("sink", "before")]):
+            for victim in (["own", "other"] if hosts == 2 else ["own"]):
+                out.append(dict(fault="garbage-shm", when=when, task=task, hosts=hosts, workers=workers, victim=victim,
+                                datagram=CLUSTER_DATAGRAMS[(i + hosts + workers) % len(CLUSTER_DATAGRAMS)]))
     return out
 
 
-GROUPS = {"raise": ["raise"], "worker-dies": ["exit", "kill9"], "helper-dies": ["kill-data", "kill-shm", "term-shm", "kill-shm-midreq"]}
+GROUPS = {"raise": ["raise"], "worker-dies": ["exit", "kill9"], "helper-dies": ["kill-data", "kill-shm", "term-shm", "kill-shm-midreq", "kill-shm-midshutdown", "garbage-shm"]}
 SHM_WITNESS = dict(fault="kill-shm", when="during", task="src", hosts=1, workers=2, victim="own")
+CLUSTER_DATAGRAMS = ["unknown-tag", "empty", "non-ascii-key"]
+
+
+def garbage_case(rng):
+    """The fault run every quick run contains: the shm server of a host that HOLDS published datasets (the first output of
+    `src` is out, or both are) receives one undecodable datagram from a task of that host."""
+    when = rng.choice(["during", "after"])
+    hosts, workers = rng.choice([(1, 1), (1, 2), (1, 2), (2, 1)])
+    return dict(fault="garbage-shm", when=when, task="src", hosts=hosts, workers=workers, victim="own", datagram=rng.choice(CLUSTER_DATAGRAMS))
+
+
+
+SIGKILL_SHM_FAULTS = ("kill-shm", "kill-shm-midreq", "kill-shm-midshutdown")
 
 
 def fault_class(case):
-    return "shm-sigkill" if case["fault"] in ("kill-shm", "kill-shm-midreq") else "other"
+    """the class of the FAULT (the class of a leftover segment additionally depends on whose segment it is: judge_cluster)"""
+    return "shm-sigkill" if case["fault"] in SIGKILL_SHM_FAULTS else "other"      # garbage-shm / term-shm: "other" (the server CAN clean up)
+
+
+def lost_output_certain(case):
+    """Faults that CERTAINLY prevent a requested output (default request: src|0 and sink|o; sink needs every task): the task
+    body ends before having produced all its outputs, or its own host's shm server is gone before it can publish them."""
+    if case.get("ext", ["src|0", "sink|o"]) != ["src|0", "sink|o"]:
+        return False
+    pt = (case["task"], case["when"])
+    early = pt in (("src", "before"), ("src", "during"), ("a", "before"), ("b", "before"), ("sink", "before"))
+    if case["fault"] in ("raise", "exit", "kill9"):
+        return early
+    if case["fault"] in ("kill-shm", "term-shm", "garbage-shm", "kill-shm-midreq", "kill-shm-midshutdown"):
+        return early and case.get("victim", "own") == "own"
+    return False
 
 
 def judge_cluster(case, obs):
@@ -1052,7 +1669,8 @@ def judge_cluster(case, obs):
     sig0 = {"fault": case["fault"], "when": case["when"], "task": case["task"], "fault_class": fault_class(case)}
     v = []
     if obs["ended"] == "hang":
-        v.append((dict(sig0, kind="hang"), f"run did not end within the deadline ({obs.get('alive_at_deadline')} processes still alive); case {case}"))
+        v.append((dict(sig0, kind="hang"), f"run did not end within the deadline ({obs.get('alive_at_deadline')} processes still alive; job started: {obs.get('job_started')}, "
+                                           f"fault injected: {obs.get('fault_fired')}); case {case}"))
         return v
     if obs["ended"] == "infra":
         return v
@@ -1060,34 +1678,68 @@ def judge_cluster(case, obs):
         want = {e: cl.EXPECTED[e] for e in case.get("ext", ["src|0", "sink|o"])}
         if obs["outputs"] != want:
             v.append((dict(sig0, kind="wrong-value"), f"run ended without error but outputs {obs['outputs']} != {want}; case {case}"))
+        elif obs.get("fault_fired") and lost_output_certain(case):
+            # clause "with an error whenever the failure prevents a requested output from being produced or delivered"
+            v.append((dict(sig0, kind="ok-despite-lost-output"),
+                      f"the fault was injected ({case['fault']} at {case['task']}/{case['when']}: the task cannot have produced all its outputs) and the run "
+                      f"still ended WITHOUT an error, outputs {obs['outputs']}; case {case}"))
     if obs["leftover_procs"]:
         v.append((dict(sig0, kind="leftover-procs"), f"{len(obs['leftover_procs'])} process(es) of the run still alive after it ended ({obs['ended']}): {[c[:50] for c in obs['leftover_procs'][:3]]}; case {case}"))
     if obs["leftover_shm"]:
-        v.append((dict(sig0, kind="leftover-shm"), f"/dev/shm segments left behind after the run ended ({obs['ended']}): {obs['leftover_shm']}; case {case}"))
+        # whose segments? only those of the host whose shm server was SIGKILLed belong to the class a SIGKILL explains
+        vh = obs.get("victim_host") or ""
+        mine = [n for n in obs["leftover_shm"] if vh and n.startswith("sCasc" + vh)]
+        others = [n for n in obs["leftover_shm"] if n not in mine]
+        if mine:
+            v.append((dict(sig0, kind="leftover-shm", host="victim"),
+                      f"/dev/shm segments of the host whose helper was hit ({vh}) left behind after the run ended ({obs['ended']}): {mine}; case {case}"))
+        if others:
+            v.append((dict(sig0, kind="leftover-shm", host="survivor" if vh else "any", fault_class="other"),
+                      f"/dev/shm segments left behind after the run ended ({obs['ended']}) by a host whose shm server was NOT the one hit"
+                      f"{' (' + vh + ' was)' if vh else ''}: {others}; case {case}"))
     return v
 
 
-def run_cluster_case(ctx, case, deadline=30.0, confirm=True):
-    """One real fault run (+ one confirmation run if it is not clean). Returns (obs, violations)."""
+def _obs_summary(obs):
+    return {k: obs.get(k) for k in ("ended", "error", "outputs", "leftover_procs", "leftover_shm", "job_started", "fault_fired", "victim_host", "t_run", "wall", "alive_at_deadline")}
+
+
+def run_cluster_case(ctx, case, deadline=30.0, confirm=True, first_obs=None):
+    """One real fault run (+ one more run of the same case if it is not clean). Returns (obs, violations); a violation is
+    (signature, what, runs) where `runs` holds both observations when the second run did not show the same verdict.
+
+    Which verdicts are reported:
+      * wrong value / ok-despite-lost-output: always (one witness is enough);
+      * hang / leftover that shows again on the immediate re-run: reported;
+      * hang / leftover that does NOT show again: reported with "reproduced": false and both runs in the replay WHEN THE JOB HAD
+        STARTED in the failing run (every helper process had passed the start-up gate of the runner, the first task body had been
+        entered); dropped (counted as cluster:flaky-startup-*) only when the job had not started -- the documented
+        fork-with-threads deadlock at cluster start-up under heavy machine load, which is outside C05."""
     from ekw import c05_cluster as cl
     from ekw.core import load_known, match_known
-    obs = None
-    for attempt in range(3):
-        obs = cl.run_case(case, deadline_s=deadline, settle_s=25.0)
-        if obs["ended"] != "infra":
-            break
-        ctx.count("cluster:infra-retry")
+    obs = first_obs
+    if obs is None or obs["ended"] == "infra":
+        for attempt in range(3):
+            obs = cl.run_case(case, deadline_s=deadline, settle_s=25.0)
+            if obs["ended"] != "infra":
+                break
+            ctx.count("cluster:infra-retry")
     ctx.count("cluster:runs")
     ctx.count("cluster:fault=" + case["fault"])
     ctx.count("cluster:when=" + case["when"])
     ctx.count(f"cluster:shape={case['hosts']}x{case['workers']}")
     ctx.count("cluster:ended=" + obs["ended"])
+    if case["fault"] != "none":
+        ctx.count("cluster:fault-injected" if obs.get("fault_fired") else "cluster:fault-not-reached")
+    if obs["ended"] == "error" and case["fault"] != "none" and not lost_output_certain(case):
+        ctx.count("cluster:error-where-outputs-might-have-survived")      # allowed by the property text; counted for the record
     viol = judge_cluster(case, obs)
-    ctx.extra.setdefault("cluster_runs", []).append({"case": {k: case[k] for k in ("fault", "when", "task", "hosts", "workers") if k in case}, "ended": obs["ended"],
+    ctx.extra.setdefault("cluster_runs", []).append({"case": {k: case[k] for k in ("fault", "when", "task", "hosts", "workers", "victim", "datagram") if k in case}, "ended": obs["ended"],
                                                       "t_run": obs.get("t_run"), "wall": obs.get("wall"), "verdicts": [s["kind"] for s, _ in viol]})
     if obs["ended"] == "infra":
         ctx.notes.append(f"cluster run could not be set up ({obs.get('error')}): {case}")
         return obs, []
+    out = [(s, w, None) for s, w in viol]
     if viol and confirm:
         known = load_known()
         need = [x for x in viol if match_known(PROPERTY, x[0], known) is None]
@@ -1095,15 +1747,21 @@ def run_cluster_case(ctx, case, deadline=30.0, confirm=True):
             obs2 = cl.run_case(case, deadline_s=deadline, settle_s=25.0)
             ctx.count("cluster:confirm-runs")
             kinds2 = {s["kind"] for s, _ in judge_cluster(case, obs2)}
-            kept = []
+            runs = [_obs_summary(obs), _obs_summary(obs2)]
+            out = []
             for s, w in viol:
                 if match_known(PROPERTY, s, known) is not None or s["kind"] in kinds2:
-                    kept.append((s, w))
+                    out.append((s, w, None))
+                elif s["kind"] in ("wrong-value", "ok-despite-lost-output"):
+                    out.append((s, w + " [not shown by the immediate re-run]", runs))
+                elif obs.get("job_started"):
+                    ctx.count("cluster:unreproduced-after-start-" + s["kind"])
+                    out.append((dict(s, reproduced=False), w + " [the job HAD started; the immediate re-run of the same case did not show this verdict: "
+                                                               f"{runs[1]['ended']}, leftover procs {len(runs[1]['leftover_procs'] or [])}, leftover shm {len(runs[1]['leftover_shm'] or [])}]", runs))
                 else:
-                    ctx.count("cluster:flaky-" + s["kind"])
-                    ctx.notes.append(f"not reproduced on re-run (ignored): {s}")
-            viol = kept
-    return obs, viol
+                    ctx.count("cluster:flaky-startup-" + s["kind"])
+                    ctx.notes.append(f"start-up verdict (job had not started) not reproduced on re-run, ignored: {s}")
+    return obs, out
 
 
 def pick_cluster_cases(ctx):
@@ -1112,16 +1770,21 @@ def pick_cluster_cases(ctx):
     if ctx.quick:
         picks = []
         for g, faults in GROUPS.items():
-            pool = [c for c in m if c["fault"] in faults and c["fault"] != "kill-shm-midreq" and fault_class(c) != "shm-sigkill"]
+            pool = [c for c in m if c["fault"] in faults and fault_class(c) != "shm-sigkill"]     # the SIGKILL class: SHM_WITNESS + SLOW_CASES, every run
             picks.append(rng.choice(pool))
+        if not any(c["fault"] == "garbage-shm" and c["when"] != "before" and c.get("victim") == "own" for c in picks):
+            picks.append(garbage_case(rng))
         return picks
     core_set = [c for c in m if (c["hosts"], c["workers"]) == (1, 2)]
-    rest = [c for c in m if (c["hosts"], c["workers"]) != (1, 2)]
+    # always: the shutdown-command window (only exists on single-worker hosts) and a helper of the OTHER host hit on 2 hosts
+    must = [c for c in m if c not in core_set and (c["fault"] == "kill-shm-midshutdown" or
+                                                   (c.get("victim") == "other" and c["when"] == "during" and c["workers"] == 1))]
+    rest = [c for c in m if c not in core_set and c not in must]
     rng.shuffle(rest)
-    return core_set + rest[: max(0, 56 - len(core_set))]
+    return core_set + must + rest[: max(0, 56 - len(core_set) - len(must))]
 
 
-def cluster_phase(ctx, cases, healthy=True, stop_after=0):
+def cluster_phase(ctx, cases, healthy=True, stop_after=0, first=None):
     from ekw import c05_cluster as cl
     done = ctx.extra.setdefault("_cluster_done", [])
     if healthy:
@@ -1132,8 +1795,8 @@ def cluster_phase(ctx, cases, healthy=True, stop_after=0):
             ctx.traces += 1
             if obs["ended"] == "error":
                 ctx.disagree("cluster-healthy-run", case, "ok", {"ended": obs["ended"], "error": obs.get("error")})
-            for s, w in viol:
-                ctx.violation(s, {"cluster": case}, w)
+            for s, w, runs in viol:
+                ctx.violation(s, {"cluster": case, **({"runs": runs} if runs else {})}, w)
     for case in cases:
         key = json.dumps(case, sort_keys=True)
         if key in done:
@@ -1142,11 +1805,11 @@ def cluster_phase(ctx, cases, healthy=True, stop_after=0):
             ctx.notes.append("search stopped: enough failing real-cluster inputs found")
             break
         done.append(key)
-        obs, viol = run_cluster_case(ctx, case)
+        obs, viol = run_cluster_case(ctx, case, first_obs=(first or {}).get(key))
         ctx.case({"cluster": case, "ended": obs["ended"], "t_run": obs.get("t_run")}, nontrivial=True)
         ctx.traces += 1
-        for s, w in viol:
-            ctx.violation(s, {"cluster": case}, w)
+        for s, w, runs in viol:
+            ctx.violation(s, {"cluster": case, **({"runs": runs} if runs else {})}, w)
 
 
 # ============================================================================= the check
@@ -1211,8 +1874,45 @@ def _inprocess(ctx, use_model=True):
             lambda m: {"rows": m["rows"], "none_raises": m["none_raises"]})
         ctx.count("translator:rows", 3)
 
+    # (i') translator `shm_entry` cross-check: the real entrypoint driven in-process vs the AST table vs the Lean table
+    etab = ctx.extra.get("shm_entry_table")
+    edyn = _dynamic_entry()
+    ctx.extra["shm_entry_dynamic"] = edyn
+    if "crash" in edyn:
+        ctx.disagree("shm-entry-harness", {"op": "entry-table"}, "the real entrypoint can be driven with a scripted socket", edyn)
+    elif etab is not None:
+        for k in ("rows", "shutdown_breaks", "sigterm_handler", "sigint_handler", "atexit_unlinks", "loop_can_raise"):
+            if etab[k] != edyn[k]:
+                ctx.disagree("translator-vs-real-shm-entrypoint", {"fact": k}, {"translated": etab[k], "table": etab}, {"observed": edyn[k]})
+        add("translator-vs-lean-entry-table", {"op": "entry-table"}, {"op": "entry-table"},
+            {k: etab[k] for k in ("rows", "shutdown_breaks", "sigterm_handler", "sigint_handler", "atexit_unlinks")},
+            lambda m: {k: m[k] for k in ("rows", "shutdown_breaks", "sigterm_handler", "sigint_handler", "atexit_unlinks")})
+        ctx.count("translator:entry-rows", len(etab["rows"]))
+
     corpus = _load_corpus()
     ctx.count("corpus:entries", len(corpus))
+    # (ii.g) the end of the shm server process
+    for case in [c["shm_entry"] for c in corpus if "shm_entry" in c] + gen_shm_entry_cases(rng, ctx.budget(60, 1200)):
+        out = _run_shm_entry(case)
+        ctx.case({"shm_entry": case}, nontrivial=True)
+        ctx.count("shm-entry:cases")
+        ctx.count("shm-entry:end=" + case["end"] + ("/" + case.get("datagram", "") if case["end"] == "garbage" else ""))
+        if "crash" in out:
+            ctx.disagree("shm-entry-harness", {"shm_entry": case}, "the real entrypoint can be driven with a scripted socket", out)
+            continue
+        ctx.count("shm-entry:ended=" + out["ended"].split(":")[0])
+        if out["pre"]:
+            ctx.count("shm-entry:with-segments")
+        o = oracle_shm_entry(case, out)
+        if o:
+            small, o = _shrink_shm_entry(case, o)
+            ctx.violation(o[0], {"shm_entry": small}, o[1])
+        if out["ended"] == "alive" and _END_CLASS[case["end"]] == "loop-exception":
+            ctx.count("shm-entry:survived")          # the datagram was decodable / the error handled in the loop: no death to compare
+            continue
+        add("shm-server-end", {"shm_entry": case}, {"op": "shmend", "segs": out["pre"], "how": _END_CLASS[case["end"]]},
+            {"left": out["left"], "code": out["code"]}, lambda m: {"left": sorted(m["left"]), "code": m["code"]})
+
     # (ii.a) healthcheck, every combination
     for st in [c["health"] for c in corpus if "health" in c] + health_cases():
         out = real_health(st)
@@ -1232,6 +1932,8 @@ def _inprocess(ctx, use_model=True):
         ctx.count("terminate:cases")
         if any(h != "ns" and h["exit"] is None and h["stuck"] for _, h in st["workers"]):
             ctx.count("terminate:with-stuck-worker")
+        if st["shm"] is None and st.get("shm_mode", "ok") != "ok" and not st["terminating"]:
+            ctx.count("terminate:with-" + st["shm_mode"] + "-shm")
         o = oracle_terminate(st, out)
         if o:
             ctx.violation(o[0], {"terminate": st}, o[1])
@@ -1240,24 +1942,32 @@ def _inprocess(ctx, use_model=True):
             lambda m: {"acts": m["acts"], "acts2": m["acts2"], "hang": False, "crash": None})
 
     # (ii.c) recv_loop iteration
-    ticks = [(c["tick"], c["inbox"]) for c in corpus if "tick" in c]
+    ticks = [(c["tick"], c["inbox"], bool(c.get("hb")), bool(c.get("retry"))) for c in corpus if "tick" in c]
     for _ in range(ctx.budget(400, 8000)):
         st = gen_state(rng)
-        ticks.append((st, gen_inbox(rng, st)))
-    for st, inbox in ticks:
-        out = real_tick(st, inbox)
+        # environment of the iteration: heartbeat grace elapsed / the sender has run out of retries for some message
+        ticks.append((st, gen_inbox(rng, st), rng.random() < 0.25, rng.random() < 0.15))
+    for st, inbox, hb, retry in ticks:
+        out = real_tick(st, inbox, hb, retry)
         dead = any(h == "ns" or h["exit"] is not None for _, h in st["workers"]) or st["shm"] is not None or st["data"] is not None
-        ctx.case({"tick": st, "inbox": inbox}, nontrivial=dead or any(m[0] in ("tf", "xf", "other", "shutdown") for m in inbox))
+        tcase = {"tick": st, "inbox": inbox, "hb": hb, "retry": retry}
+        ctx.case(tcase, nontrivial=dead or retry or any(m[0] in ("tf", "xf", "other", "shutdown") for m in inbox))
         ctx.count("tick:cases")
         for m in inbox:
             ctx.count("tick:msg=" + m[0])
         if dead:
             ctx.count("tick:with-dead-child")
-        o = oracle_tick(st, inbox, out)
+        if hb:
+            ctx.count("tick:heartbeat-due")
+        if retry:
+            ctx.count("tick:retry-budget-exhausted")
+        if any(x[0] == "c" and x[1][0] == "reg" for x in out.get("out", [])):
+            ctx.count("tick:heartbeat-sent")
+        o = oracle_tick(st, inbox, out, retry)
         if o:
-            ctx.violation(o[0], {"tick": st, "inbox": inbox}, o[1])
+            ctx.violation(o[0], tcase, o[1])
         real_c = {"out": out.get("out"), "terminating": out.get("terminating"), "hang": "hang" in out, "crash": out.get("crash")}
-        add("recv_loop-iteration", {"tick": st, "inbox": inbox}, dict(st, op="tick", inbox=inbox), real_c,
+        add("recv_loop-iteration", tcase, dict(st, op="tick", inbox=inbox, hb=hb, retry=retry), real_c,
             lambda m: {"out": m["out"], "terminating": m["st"]["terminating"], "hang": False, "crash": None})
 
     # (ii.d) worker body
@@ -1284,7 +1994,10 @@ def _inprocess(ctx, use_model=True):
         ctx.case({"recv": batches, "hosts": hosts}, nontrivial=any(m[0] in ("tf", "ef", "xf", "exit", "unsup") for b in batches for m in b))
         ctx.count("recv:cases")
         ctx.count("recv:res=" + out["res"].split(":")[0])
-        if out["res"] != "raised" and fail_consumed:
+        if out["res"] == "hang":
+            ctx.violation({"kind": "shutdown-waits-forever"}, {"recv": batches, "hosts": hosts},
+                          f"Bridge.shutdown never returns when a host does not answer ExecutorShutdown: {out['why']}; batches {batches}")
+        elif out["res"] != "raised" and fail_consumed:
             kinds = sorted({m[0] for b in batches for m in b if m[0] in ("tf", "ef", "xf", "exit", "unsup")})
             ctx.violation({"kind": "failure-ignored", "msg": kinds[0] if kinds else "?"}, {"recv": batches, "hosts": hosts},
                           f"Bridge.recv_events read a failure message ({kinds}) and did not shut down and raise: result {out}")
@@ -1341,18 +2054,59 @@ def shm_exit_phase(ctx):
         sim_shm.ATEXIT_LINE = False
 
 
-def correspond(ctx):
-    _inprocess(ctx, use_model=True)
-    shm_exit_phase(ctx)
+# fault runs whose teardown sits out a grace period (a worker blocked for ever on a dead shm server; a shm server that never
+# answers the shutdown command): 12-25 s each. The quick tier runs them too -- concurrently with the in-process phases.
+SLOW_CASES = [dict(fault="kill-shm-midreq", when="before", task="src", hosts=1, workers=2, victim="own"),
+              dict(fault="kill-shm-midshutdown", when="before", task="src", hosts=1, workers=1, victim="own")]
+
+
+def _start_background(ctx, cases):
+    import threading
+    from ekw import c05_cluster as cl
+    res = {}
+
+    def work(case, key):
+        try:
+            res[key] = cl.run_case(case, deadline_s=30.0, settle_s=25.0)
+        except Exception as ex:
+            res[key] = {"ended": "infra", "error": _err(ex) + ": " + str(ex)[:200], "outputs": {}, "leftover_procs": [], "leftover_shm": []}
+    threads = []
+    for i, case in enumerate(cases):
+        th = threading.Thread(target=work, args=(case, json.dumps(case, sort_keys=True)), daemon=True)
+        th.start()
+        threads.append(th)
+        time.sleep(0.05)
+    return threads, res
+
+
+def _cluster_all(ctx):
+    bg = _start_background(ctx, SLOW_CASES) if ctx.quick else None
+    yield
     cases = pick_cluster_cases(ctx)
     cluster_phase(ctx, cases + [SHM_WITNESS], healthy=True)
+    if bg is not None:
+        threads, res = bg
+        for th in threads:
+            th.join(120)
+        cluster_phase(ctx, [c for c in SLOW_CASES if json.dumps(c, sort_keys=True) in res], healthy=False, first=res)
+    yield
+
+
+def correspond(ctx):
+    g = _cluster_all(ctx)
+    next(g)
+    _inprocess(ctx, use_model=True)
+    shm_exit_phase(ctx)
+    next(g)
     ctx.extra.pop("_cluster_done_tmp", None)
 
 
 def oracle_only(ctx):
+    g = _cluster_all(ctx)
+    next(g)
     _inprocess(ctx, use_model=False)
     shm_exit_phase(ctx)
-    cluster_phase(ctx, pick_cluster_cases(ctx) + [SHM_WITNESS], healthy=True)
+    next(g)
 
 
 def search(ctx, why):
@@ -1364,10 +2118,20 @@ def search(ctx, why):
         dict(fault="kill9", when="during", task="src", hosts=2, workers=1, code=3),
         dict(fault="kill-data", when="during", task="src", hosts=1, workers=2, victim="own"),
         dict(fault="term-shm", when="during", task="src", hosts=1, workers=2, victim="own"),
+        dict(fault="garbage-shm", when="during", task="src", hosts=1, workers=2, victim="own", datagram="unknown-tag"),
         dict(fault="kill-shm", when="before", task="src", hosts=1, workers=2, victim="own"),
         dict(fault="kill-shm-midreq", when="before", task="src", hosts=1, workers=2, victim="own"),
+        dict(fault="kill-shm-midshutdown", when="before", task="src", hosts=1, workers=1, victim="own"),
     ]
     ctx.count("search:invoked")
+    # the search exists to FIND a failing input; when the run has already produced one that no known finding explains
+    # (in-process history or real fault run, stored as replay), nothing is gained by 9 more cluster runs
+    from ekw.core import load_known, match_known
+    known = load_known()
+    if any(match_known(PROPERTY, v["signature"], known) is None for v in ctx.violations):
+        ctx.count("search:skipped-failing-input-already-found")
+        ctx.notes.append("search skipped: a failing input had already been found")
+        return
     cluster_phase(ctx, targeted, healthy=False, stop_after=2)
 
 
@@ -1385,6 +2149,11 @@ def replay(payload):
         from ekw import sim_shm
         sim_shm.ATEXIT_LINE = True
         return sim_shm.replay_print(payload, sim_shm.C05_KINDS)
+    if "shm_entry" in case:
+        out = _run_shm_entry(case["shm_entry"])
+        o = None if "crash" in out else oracle_shm_entry(case["shm_entry"], out)
+        print("real cascade.shm.server.entrypoint, scripted socket:", case["shm_entry"], "->", out, "\noracle:", o)
+        return 1 if o else 0
     if "health" in case:
         out = real_health(case["health"])
         o = oracle_health(case["health"], out)
@@ -1396,8 +2165,8 @@ def replay(payload):
         print("terminate on", case["terminate"], "->", out, "\noracle:", o)
         return 1 if o else 0
     if "tick" in case:
-        out = real_tick(case["tick"], case["inbox"])
-        o = oracle_tick(case["tick"], case["inbox"], out)
+        out = real_tick(case["tick"], case["inbox"], bool(case.get("hb")), bool(case.get("retry")))
+        o = oracle_tick(case["tick"], case["inbox"], out, bool(case.get("retry")))
         print("recv_loop iteration on", case["tick"], "inbox", case["inbox"], "->", out, "\noracle:", o)
         return 1 if o else 0
     if "worker" in case:
@@ -1407,8 +2176,8 @@ def replay(payload):
         return 1 if o else 0
     if "recv" in case:
         out, fc = real_recv(case["hosts"], case["recv"])
-        bad = out["res"] != "raised" and fc
-        print("recv_events over", case["recv"], "->", out, "\noracle: failure ignored" if bad else "\noracle: ok")
+        bad = (out["res"] != "raised" and fc) or out["res"] == "hang"
+        print("recv_events over", case["recv"], "->", out, "\noracle: failure ignored / shutdown waits for ever" if bad else "\noracle: ok")
         return 1 if bad else 0
     if "run_sim" in case:
         res, batches, hosts = real_run_sim(case["run_sim"])
@@ -1418,7 +2187,11 @@ def replay(payload):
     if "cluster" in case:
         obs = cl.run_case(case["cluster"], deadline_s=30.0, settle_s=25.0)
         v = judge_cluster(case["cluster"], obs)
-        print("real cluster run", case["cluster"], "->", {k: obs[k] for k in ("ended", "error", "outputs", "leftover_procs", "leftover_shm", "wall")})
+        if case.get("runs"):
+            print("recorded: the verdict showed in the first of these two consecutive runs of the case only:")
+            for r in case["runs"]:
+                print("   ", r)
+        print("real cluster run", case["cluster"], "->", _obs_summary(obs))
         print("oracle:", v)
         return 1 if v else 0
     print("unknown replay case")
